@@ -227,6 +227,29 @@ PROPS["C03"] = dict(
     level_note="Trusted: as C02. Known finding (recorded): Update URR never changes the periodic registration. Fixed: BAR delay truncation.",
 )
 
+
+PROPS["C15"] = dict(
+    module="UpfVerif.Props.C15",
+    streams=[dict(name="perio", shards=2, shards_thorough=12, seed_per_shard=True, timeout=600, timeout_thorough=3000)],
+    rule="S-perio: histories on the real perio.Server (1-4 sessions x 1-5 URRs x 1-3 periods of hours, so no real ticker fires): ADD / DEL (registered and unknown) / "
+         "injected TIMEOUT events (used and stale periods; query callback answering all / every other URR / nothing / error) / CLOSE, group dump and ticker-goroutine "
+         "count after every event; then multi-URR queries through the real Gtp5g.queryMultiURR against the simulated kernel with totals at 0, 1, N-1, N, N+1, 2N-1 ... 12N "
+         "over 1-6 sessions, the GET_MULTI_REPORTS requests decoded by the Lean netlink reader; distinct = distinct input lines",
+    trusted_base=["model Model/Perio.lean of internal/forwarder/perio/server.go (event handling of the single server goroutine; groups as pair sets) and of queryMultiURR's batching loop, "
+                  "hand-written, tied by the S-perio differential stream",
+                  "the specification state of the driver-side predicate: registrations implied by the ADD/DEL/CLOSE history (Props/C15.specStep, proved equal to the model's groups)",
+                  "harness: events injected through the server's own channel (in-package overlay file), ticker goroutines counted from the goroutine profile"],
+    assumptions=["each URR is registered with at most one period at a time (the property's hypothesis; Hyp in the theorems; the generator respects it)",
+                 "real tickers are replaced by injected TIMEOUT events (periods of hours)", "go-gtp5gnl's MaxNetlinkUsageReportNum() is taken as evaluated by the harness (56 here)"],
+    level_text="Kernel-checked (Props/C15.lean): over EVERY history satisfying the hypothesis the server's groups are exactly the registrations the history implies (run_refines, "
+               "induction over all event lists; ADD/DEL change exactly the addressed registration; invariants: one group per period, no empty group, no pair twice); a tick of period p queries "
+               "exactly the URRs registered with p, each once, and nothing when there are none (tick_exact_run); a period's ticker exists iff a URR uses it; CLOSE releases all; "
+               "batching: for every list and every limit n>0 the requests are non-empty, at most n long and concatenate to the list; each returned report is delivered once to its own "
+               "session flagged PERIO. Tie: S-perio on the real server and the real driver batching; the spec-level predicate is evaluated on the implementation's own queries.",
+    level_note="Trusted: Lean kernel; hand-written Model/Perio.lean (checked against the real server each run, not proved equal); timers as events. "
+               "Outside the hypothesis (same URR under two periods) DEL removes the pair from one group only, chosen by map order — noted, not claimed.",
+)
+
 # properties not claimed yet (kept current; every property has a planned executable model, see DESIGN.md)
 NOT_APPLICABLE = {}
 for _i in range(1, 21):
